@@ -268,7 +268,7 @@ func c17Components() []*concComponent {
 				case 12:
 					out[i] = concIn{Op: "Pin", A: rng.IntN(len(allRoots)), B: rng.IntN(10)}
 				default:
-					out[i] = concIn{Op: []string{"GetSlot", "Closest", "CanonAt", "Search", "Justified", "Finalized", "GetPin"}[rng.IntN(7)], A: rng.IntN(len(allRoots)), B: rng.IntN(12)}
+					out[i] = concIn{Op: []string{"GetSlot", "Closest", "CanonAt", "Search", "Justified", "Finalized", "GetPin", "FindHead"}[rng.IntN(8)], A: rng.IntN(len(allRoots)), B: rng.IntN(12)}
 				}
 			}
 			return out
@@ -287,6 +287,9 @@ func c17Components() []*concComponent {
 				return fmt.Sprint(fc.ProcessAttestation(common.ValidatorIndex(in.A), allRoots[in.B], common.Slot(in.C)))
 			case "Head":
 				h, err := fc.Head()
+				return fmt.Sprintf("%x@%d/%v", h.Root[:2], h.Slot, err != nil)
+			case "FindHead":
+				h, err := fc.FindHead(allRoots[in.A], common.Slot(in.B))
 				return fmt.Sprintf("%x@%d/%v", h.Root[:2], h.Slot, err != nil)
 			case "InSubtree":
 				u, s := fc.InSubtree(allRoots[in.A], allRoots[in.B])
@@ -415,6 +418,9 @@ func c17Components() []*concComponent {
 					out[i] = concIn{Op: "Contrib", A: 3 + rng.IntN(6), B: rng.IntN(3), C: rng.IntN(200)}
 				case 5:
 					out[i] = concIn{Op: "Reset", A: 4 + rng.IntN(4)}
+					if rng.IntN(5) == 0 {
+						out[i] = concIn{Op: []string{"PackAgg", "PackCon"}[rng.IntN(2)], A: 3 + rng.IntN(6), B: rng.IntN(4)}
+					}
 				default:
 					out[i] = concIn{Op: "Snap"}
 				}
@@ -433,6 +439,12 @@ func c17Components() []*concComponent {
 			case "Reset":
 				sp.Reset(common.Slot(in.A))
 				return "-"
+			case "PackAgg":
+				agg, err := sp.PackAggregate(ctx, common.Slot(in.A), common.Root{1}, nil)
+				return fmt.Sprint(agg == nil, err != nil)
+			case "PackCon":
+				con, err := sp.PackContribution(ctx, common.Slot(in.A), common.Root{1}, uint64(in.B), nil)
+				return fmt.Sprint(con == nil, err != nil)
 			default:
 				snap := sp.VerifSnapshot()
 				d := func(m pool.SyncCommitteeMessages, c pool.SyncCommitteeContributions) string {
@@ -466,7 +478,7 @@ func c17Components() []*concComponent {
 		gen: func(rng *rand.Rand, client, nOps int) []concIn {
 			out := make([]concIn, nOps)
 			for i := range out {
-				out[i] = concIn{Op: []string{"AddAS", "AddPS", "AddVE", "AllAS", "AllPS", "AllVE"}[rng.IntN(6)], A: rng.IntN(3), B: rng.IntN(100)}
+				out[i] = concIn{Op: []string{"AddAS", "AddPS", "AddVE", "AllAS", "AllPS", "AllVE", "AddAS", "AddPS", "AddVE", "AllAS", "AllPS", "AllVE", "PackAS", "PackPS", "PackVE"}[rng.IntN(15)], A: rng.IntN(3), B: rng.IntN(100)}
 			}
 			return out
 		},
@@ -485,6 +497,12 @@ func c17Components() []*concComponent {
 			case "AddVE":
 				ex := &phase0.SignedVoluntaryExit{Message: phase0.VoluntaryExit{ValidatorIndex: common.ValidatorIndex(in.A), Epoch: common.Epoch(in.B)}}
 				return fmt.Sprint(s.ve.AddVoluntaryExit(ctx, ex) != nil)
+			case "PackAS":
+				return fmt.Sprint(len(s.as.Pack(func(*phase0.AttesterSlashing) int { return 1 }, 2)))
+			case "PackPS":
+				return fmt.Sprint(len(s.ps.Pack(func(*phase0.ProposerSlashing) int { return 1 }, 2)))
+			case "PackVE":
+				return fmt.Sprint(len(s.ve.Pack(func(*phase0.SignedVoluntaryExit) int { return 1 }, 2)))
 			case "AllAS":
 				var it []string
 				for _, x := range s.as.All() {
